@@ -20,7 +20,18 @@ func (m *ModbusTCPAssembler) ReceiveRead(ctx context.Context, received []byte, b
 	n, err := packet.LooksLikeModbusTCP(m.received.Bytes(), false)
 	if err == packet.ErrTCPDataTooShort {
 		return nil, false // wait for more data to arrive
-	} else if err != nil {
+	}
+	if n > m.received.Len() {
+		return nil, false // length of the packet is known, but it has not arrived completely. wait for more data to arrive
+	}
+	if err != nil {
+		// packet with unsupported function code (n > 0) or bytes that are not Modbus TCP (n == 0). These bytes must be
+		// consumed or they would be classified (and answered) again with every following read.
+		if n > 0 {
+			m.received.Next(n)
+		} else {
+			m.received.Reset()
+		}
 		return err.(*packet.ErrorParseTCP).Bytes(), false
 	}
 
